@@ -429,6 +429,23 @@ def run(chk, facts, tier, only=None):
         chk.expect(ok, "is_tuple:Debug<IDLValue>::Record",
                    f"Debug for IDLValue::Record must omit a label exactly when `e.id.get_id() == i` over `fs.iter().enumerate()` ({why})",
                    f"{h['span']['file']}:{rows[0]['ln']}", ok_detail="label omitted iff id == position")
+        # (a') a service constructor keeps its `(args) ->`, also when the argument list is empty: `service : () -> {..}` is a Class and
+        #      re-reads as a Class only with the arrow; both printers must print it unconditionally in pp_class
+        for crate_, key_re in ((c, r"^candid::pretty::candid::pp_class$"), (p, r"^candid_parser::syntax::pretty::pp_class$")):
+            g = crate_.fn(key_re)
+            chk.analysed(g["key"])
+            arrows = [x for x in walk(g["body"]) if x.get("k") == "lit" and isinstance(x["v"].get("str"), str) and "->" in x["v"]["str"]]
+            cond = []
+            for x in arrows:
+                under = [i for i in nodes(g["body"], "if") if any(y is x for y in walk(i["t"])) or (i.get("e") and any(y is x for y in walk(i["e"])))]
+                under += [m for m in nodes(g["body"], "match") if m.get("src") == "Normal" and any(any(y is x for y in walk(a["body"])) for a in m["arms"])
+                          and not all(any(isinstance(z, dict) and z.get("k") == "lit" and "->" in str(z["v"].get("str")) for z in walk(a["body"])) or panics_in(a["body"]) for a in m["arms"])]
+                if under:
+                    cond.append(x)
+            chk.expect(bool(arrows) and not cond, f"class-arrow:{g['key'].split('::')[0]}",
+                       f"{g['key']} prints the `->` of a service constructor only under a condition (or not at all): a constructor with an empty "
+                       f"argument list would be printed as a plain service and re-read as a different actor type",
+                       where=f"{g['span']['file']}:{(cond or arrows or [{}])[0].get('ln')}", ok_detail="`(args) ->` printed on every path")
         # (b) the grammar numbers unnamed fields from 0, step 1, restarting after an explicit id
         n_rec = 0
         for k, g in sorted(p.hir.items()):
